@@ -102,6 +102,7 @@ const FAULTS: &[&str] = &[
   "match:arm-deleted",
   "visibility:private-field",
   "bound:violated",
+  "wrong-type:hinted-lambda-body",
 ];
 
 pub fn fault_kinds() -> &'static [&'static str] {
@@ -327,7 +328,8 @@ fn is_site(kind: &str, e: &Expr) -> bool {
     "wrong-type:if-condition" => matches!(&e.kind, EK::If { .. }),
     "wrong-type:unary-operand" => matches!(&e.kind, EK::Unary(..)),
     "wrong-type:call-argument" | "arity:argument-removed" => match &e.kind {
-      EK::StaticCall { args, class, .. } => !args.is_empty() && args.iter().all(|a| concrete(&a.ty)) && class != "Process",
+      // calls with inferred type arguments (Hof.*) give no guarantee: a different argument type may simply solve differently
+      EK::StaticCall { args, class, .. } => !args.is_empty() && args.iter().all(|a| concrete(&a.ty)) && class != "Process" && class != "Hof",
       EK::MethodCall { args, method, .. } => !args.is_empty() && args.iter().all(|a| concrete(&a.ty)) && method != "push" && method != "set",
       _ => false,
     },
@@ -335,6 +337,7 @@ fn is_site(kind: &str, e: &Expr) -> bool {
     "arity:type-argument" => matches!(&e.kind, EK::StaticCall { class, .. } if class != "Process"),
     "wrong-type:annotated-let" => matches!(&e.kind, EK::Block { stmts, .. } if stmts.iter().any(|s| matches!(s, Stmt::Let { annot: Some(a), .. } if concrete(a)))),
     "unresolved:variable" => matches!(&e.kind, EK::Var(_)),
+    "wrong-type:hinted-lambda-body" => matches!(&e.kind, EK::Lambda { annotated: false, body, .. } if concrete(&body.ty)),
     "unresolved:class" | "unresolved:member" => matches!(&e.kind, EK::StaticCall { module, .. } if !module.is_empty()),
     "literal:out-of-range" => matches!(&e.kind, EK::Int(_)),
     "match:arm-deleted" => match &e.kind {
@@ -443,8 +446,11 @@ fn apply(kind: &str, e: &mut Expr, pick: u32) -> Option<String> {
     "arity:type-argument" => {
       if let EK::StaticCall { targs, .. } = &mut e.kind {
         if targs.is_empty() {
+          // the callee may be generic with inferred type arguments (at most two parameters): three never fit
           targs.push(Ty::Int);
-          return Some("type-argument-added".into());
+          targs.push(Ty::Int);
+          targs.push(Ty::Int);
+          return Some("type-arguments-added".into());
         }
         targs.pop();
         if targs.is_empty() {
@@ -468,6 +474,20 @@ fn apply(kind: &str, e: &mut Expr, pick: u32) -> Option<String> {
             return Some("let-initialiser".into());
           }
         }
+      }
+      None
+    }
+    "wrong-type:hinted-lambda-body" => {
+      if let EK::Lambda { body, .. } = &mut e.kind {
+        let mut w = wrong_typed(&body.ty, &mut t);
+        if matches!(w.kind, EK::Lambda { .. }) {
+          w = Expr::new(Ty::Tuple(vec![Ty::Int, Ty::Int]), EK::Tuple(vec![Expr::new(Ty::Int, EK::Int(1)), Expr::new(Ty::Int, EK::Int(2))]));
+          if w.ty == body.ty {
+            w = Expr::new(Ty::Bool, EK::Bool(true));
+          }
+        }
+        **body = w;
+        return Some("hinted-lambda-body".into());
       }
       None
     }
